@@ -188,6 +188,13 @@ Section Conc.
     existsb (fun x => pos_eqb (fst x) p && Nat.eqb (snd x) i) (c_wlock s).
   Definition wunlock (l : list (pos * nat)) (p : pos) (i : nat) : list (pos * nat) :=
     filter (fun x => negb (pos_eqb (fst x) p && Nat.eqb (snd x) i)) l.
+  (* the release of slot i of block b: the first held entry for that slot goes (several threads may hold write locks on
+     different slots at the same time: each releases its own) *)
+  Fixpoint wl_release (sl : list (pos * selem)) (l : list (pos * nat)) (b i : nat) : list (pos * nat) :=
+    match l with
+    | [] => []
+    | x :: r => if Nat.eqb (block_of sl (fst x)) b && Nat.eqb (snd x) i then r else x :: wl_release sl r b i
+    end.
 
   (* is the thread's next micro-operation runnable?  (a slot lock held by another thread blocks it;
      read locks are never held across steps) *)
@@ -240,7 +247,7 @@ Section Conc.
         (* apply the non-blocking events that follow: frees and the release of the write lock *)
         let live' := fold_left (fun l e => match e with CFree c => remove Nat.eq_dec c l | _ => l end) after (c_live s) in
         let freed' := fold_left (fun l e => match e with CFree c => c :: l | _ => l end) after (c_freed s) in
-        let wl' := fold_left (fun l e => match e with CWriteUnlock _ _ => tl l | _ => l end) after (c_wlock s) in
+        let wl' := fold_left (fun l e => match e with CWriteUnlock b i => wl_release (c_slots s) l b i | _ => l end) after (c_wlock s) in
         let s' := mkC (c_rc s + d) (c_slots s) wl' (c_next s) live' freed' (c_data s) (c_torn s) (c_payload_drops s) (c_threads s) (c_offs s) in
         (with_t s' (set_cont t rest), CRmw d :: after)
     | MCloneResult h =>
